@@ -289,7 +289,14 @@ def render_block(r, block, level, counter, cond):
         return out
     for s in block:
         k = s[0]
-        if k == "s":
+        if k == "s" and len(s) == 3:
+            # payload: ("s", "def"|"use", var)
+            counter[0] += 1
+            if s[1] == "def":
+                out.append("%s%s%s = %d%s" % (ind, r.v, s[2], counter[0], r.semi))
+            else:
+                out.append("%s%st%d = %s%s%s" % (ind, r.v, counter[0], r.v, s[2], r.semi))
+        elif k == "s":
             counter[0] += 1
             out.append("%s%sx = %d%s" % (ind, r.v, counter[0], r.semi))
         elif k == "rt":
@@ -398,3 +405,24 @@ def render_block(r, block, level, counter, cond):
         else:
             raise ValueError(k)
     return out
+
+
+def with_payloads(block, choose):
+    """Replace every simple statement of a shape by ("s", kind, var) using choose() -> (kind, var)."""
+    out = []
+    for s in block:
+        k = s[0]
+        if k == "s":
+            kind, var = choose()
+            out.append(("s", kind, var))
+        elif k == "if":
+            out.append(("if", with_payloads(s[1], choose), with_payloads(s[2], choose) if s[2] is not None else None))
+        elif k == "wh":
+            out.append(("wh", with_payloads(s[1], choose), with_payloads(s[2], choose) if s[2] is not None else None))
+        elif k in ("fi", "fc", "dw"):
+            out.append((k, with_payloads(s[1], choose)))
+        elif k == "sw":
+            out.append(("sw", tuple(with_payloads(b, choose) for b in s[1]), with_payloads(s[2], choose) if s[2] is not None else None))
+        else:
+            out.append(s)
+    return tuple(out)
